@@ -4,7 +4,8 @@
 (* printer that turns explored behaviours into replay scripts.             *)
 EXTENDS CactusRef, Json
 
-CONSTANTS EmitCover          \* TRUE: print one script line per explored (state, call)
+CONSTANTS EmitCover          \* K > 0: print a script line for about 1/K of the explored (state, call)
+                             \* transitions (K = 1: all of them); 0: none
 
 VARIABLE hist                \* sequence of top-level public calls (hidden by VIEW)
 
@@ -13,10 +14,18 @@ OpsCore == {"New", "CloneRoot", "CloneStored", "DropRoot", "Store", "Take", "Dro
 OpsWeak == OpsCore \cup {"Downgrade", "Upgrade", "UpgradeStored", "WeakClone", "WeakDrop",
                          "StoreWeak", "TakeWeak"}
 
-Caps2 == [strong |-> 3, stored |-> 2, rec |-> 2, weak |-> 1, storedW |-> 1]
-CapsQ == [strong |-> 2, stored |-> 1, rec |-> 1, weak |-> 1, storedW |-> 1]
-CapsM == [strong |-> 3, stored |-> 1, rec |-> 1, weak |-> 1, storedW |-> 1]
-Caps3 == [strong |-> 3, stored |-> 1, rec |-> 1, weak |-> 1, storedW |-> 1]
+OpsWeakQ == {"New", "CloneRoot", "DropRoot", "AdoptStore", "TakeUnadopt", "DropStored", "Store",
+             "Downgrade", "Upgrade", "UpgradeStored", "WeakDrop", "StoreWeak"}
+CapsS == [strong |-> 2, stored |-> 1, rec |-> 1, weak |-> 1, storedW |-> 1, over |-> TRUE, elide |-> TRUE]
+CapsS3 == [strong |-> 3, stored |-> 2, rec |-> 2, weak |-> 1, storedW |-> 1, over |-> TRUE, elide |-> TRUE]
+Caps2 == [strong |-> 3, stored |-> 2, rec |-> 2, weak |-> 1, storedW |-> 1, over |-> FALSE, elide |-> FALSE]
+CapsQ == [strong |-> 2, stored |-> 1, rec |-> 1, weak |-> 1, storedW |-> 1, over |-> FALSE, elide |-> FALSE]
+CapsM == [strong |-> 3, stored |-> 1, rec |-> 1, weak |-> 1, storedW |-> 1, over |-> FALSE, elide |-> FALSE]
+CapsW == [strong |-> 2, stored |-> 1, rec |-> 1, weak |-> 1, storedW |-> 1, over |-> FALSE, elide |-> FALSE]
+CapsWM == [strong |-> 2, stored |-> 1, rec |-> 1, weak |-> 2, storedW |-> 1, over |-> FALSE, elide |-> FALSE]
+CapsT == [strong |-> 2, stored |-> 1, rec |-> 1, weak |-> 1, storedW |-> 1, over |-> FALSE, elide |-> FALSE]
+CapsWT == [strong |-> 2, stored |-> 1, rec |-> 1, weak |-> 1, storedW |-> 1, over |-> FALSE, elide |-> FALSE]
+Caps3 == [strong |-> 3, stored |-> 1, rec |-> 1, weak |-> 1, storedW |-> 1, over |-> FALSE, elide |-> FALSE]
 VPinned == [bust |-> "out", loop |-> "split", consume |-> "ignore"]
 VFixed  == [bust |-> "owned", loop |-> "ignored", consume |-> "ignore"]
 VFixA   == [bust |-> "owned", loop |-> "split", consume |-> "ignore"]
@@ -29,7 +38,7 @@ CallRec == [op |-> ob'.call.op, a |-> ob'.call.a, b |-> ob'.call.b,
 MCNext ==
   \/ /\ Call
      /\ hist' = Append(hist, CallRec)
-     /\ EmitCover => PrintT(<<"SCRIPT", ToJson(hist')>>)
+     /\ (EmitCover > 0 /\ RandomElement(1..EmitCover) = 1) => PrintT(<<"SCRIPT", ToJson(hist')>>)
   \/ /\ Micro
      /\ hist' = hist
 
@@ -51,6 +60,11 @@ MC_C05 == Cex("C05", C05)
 MC_C06 == Cex("C06", C06)
 MC_C08 == Cex("C08", C08)
 MC_C14 == Cex("C14", C14)
+
+\* simulation mode: a behaviour is cut (and printed as one script) after SimLen calls
+CONSTANTS SimLen
+SimStop == \/ Len(hist) < SimLen \/ ~Quiescent
+           \/ (PrintT(<<"SCRIPT", ToJson(hist)>>) /\ FALSE)
 
 \* stop exploring below a terminal mode
 Live2 == ctl.mode = "run"
